@@ -58,6 +58,18 @@ def utftext(ck, tier, seed, props):
     ck.extra.setdefault("impl", {})["utftext"] = h.summary["extra"]
     for s in r.emitted[1000:1003]:
         ck.sample({"module": "UtfText", "enc": s["enc"], "items": s["items"], "nChars": s["nChars"], "buf": s["buf"]})
+    # the same cases on the library built with tracing support, a trace log attached to every face (C12 only: what the
+    # call reads must not depend on whether somebody is listening)
+    if "C12" in props:
+        exet = vlib.build_harness("sant")
+        ht = vlib.run_harness(exet, ["utftext", cases, "-"] + fonts[:1], timeout=3000, env={"GRV_LOG": "1"})
+        for p in props:
+            vlib.absorb(ck, ht, pid=p)
+        if ht.fault:
+            return
+        if ht.summary:
+            ck.traces += ht.summary["extra"]["segments"]
+            ck.extra.setdefault("impl", {})["utftext_tracing_build"] = ht.summary["extra"]
     # L3: char-infos recorded from the real gr_make_seg, validated by TLC against the contract
     rv = vlib.tlc("UtfTextTrace.tla", "UtfTextTrace.cfg", workers=1, env={"TRACE": rec}, timeout=1200, coverage=False)
     if rv.violation:
